@@ -32,6 +32,21 @@ impl Prop for P {
                     stats.bump(if start_zero { "with_empty_key_value0" } else { "with_empty_key_nonzero" });
                 }
                 cases.push(format!("getkey {} ; {}", fmt_ops(&map_ops(&kvs)), qs.iter().map(|q| q.to_string()).collect::<Vec<_>>().join(" ")));
+                // the same map built on a raw builder with repeated add() calls after some inserts (a repeat is a no-op)
+                if ks.len() <= 40 {
+                    let mut ops = vec![];
+                    for (k, v) in &kvs {
+                        ops.push(Op::Insert(k.clone(), *v));
+                        if rng.chance(1, 3) {
+                            ops.push(Op::Add(k.clone()));
+                            if rng.chance(1, 3) {
+                                ops.push(Op::Add(k.clone()));
+                            }
+                        }
+                    }
+                    stats.bump("raw_builder_with_repeated_adds");
+                    cases.push(format!("getkey {} ; {}", fmt_ops(&ops), qs.iter().map(|q| q.to_string()).collect::<Vec<_>>().join(" ")));
+                }
             }
         }
         cases
